@@ -33,7 +33,9 @@ ASSUMPTIONS = [
 ]
 
 POOLS = {"i": [3, 1, 2, 0], "f": [0.5, -1.0, 2.25, 1000.0],
-         "s": ["q", "p", "zz", "A"]}
+         "s": ["q", "p", "zz", "A"],
+         # one argument whose values are of several types
+         "m": [3, 0.5, "zz", 2]}
 # values that compare equal to the int pool but have another type
 TWIN = {3: 3.0, 1: True, 2: 2.0, 0: False}
 ARGS = ["c", "a", "e", "b", "d"]  # not alphabetical
@@ -225,6 +227,24 @@ def cases(tier, seed):
                                    order=orders[(j + 1) % len(orders)])
 
 
+    # values of several types within one argument (the function reports the
+    # types it received); constants taken through **kwargs
+    for mi, (shp, tv) in enumerate([((3,), "m"), ((4, 2), "mi"), ((2, 3), "sm"),
+                                    ((2, 2, 3), "imf"), ((4, 4), "mm")]):
+        n = 1
+        for s_ in shp:
+            n *= s_
+        for ki, (kind, split) in enumerate([("tstr", False), ("num", False),
+                                            ("tuple2", True)]):
+            base = {"shape": list(shp), "types": tv, "kind": kind,
+                    "split": split, "flat": (mi + ki) % 2 == 1,
+                    "spelling": ["dict", "tuple"][(mi + ki) % 2],
+                    "nconst": 1 + (mi + ki) % 2, "varkw": ki != 1}
+            yield dict(base, strat="seq")
+            yield dict(base, strat="shuffle", seed=3)
+            fifo = list(range(n))
+            yield dict(base, strat=["submit", "async", "fakepool"][ki],
+                       order=fifo[::-1])
     # an argument with no values at all: nothing runs, the nesting is empty
     for zi, shp in enumerate([(0,), (2, 0), (0, 2), (1, 0, 2)]):
         for ki, (kind, split) in enumerate([("num", False), ("tuple2", True),
@@ -275,7 +295,10 @@ def build(case):
         consts["k1"] = 7
     if case["nconst"] >= 2:
         consts["k2"] = "w"
-    f = xfn.make_fn(names + sorted(consts), kind=case["kind"], name="f01")
+    # (with "varkw" the constants are not named in the signature: the
+    # function takes them through **kwargs)
+    f = xfn.make_fn(names + sorted(consts), kind=case["kind"], name="f01",
+                    varkw=tuple(sorted(consts)) if case.get("varkw") else ())
     if case["spelling"] == "dict":
         combos = dict(zip(names, vals))
     elif case["spelling"] == "tuple":
